@@ -65,5 +65,6 @@ TFlush ==
     /\ WellPlaced(Cur.tables)
     /\ D!Accept(OutOf(Cur.tables), parentKnown')
 
+\* a "panic" event (the real manager panicked; logged by the driver) has no action: such a trace is rejected
 TNext == TReset \/ TRouteUpdate \/ TRouteRemove \/ TVtepUpdate \/ TVtepRemove \/ THostUpdate \/ THostRemove \/ TFlush
 =============================================================================
